@@ -14,8 +14,8 @@
 -/
 import Driver.ProtoMesh
 import FcModel.Spec.C02
-namespace Fc.Drv
-open Fc
+namespace Fc.Drv.C02
+open Fc Fc.Drv Fc.C02
 
 def showNats (l : List Nat) : String := ",".intercalate (l.map toString)
 
@@ -55,7 +55,7 @@ def opSort : P String := do
   let hyp := Spec.sortHyp pyTupleHash t f
   let r1 := modelSort argsortStable f
   let r2 := modelSort argsortRevTies f
-  let dup := (Spec.pointSpec (Spec.sepA t) (applyPointMap f (Spec.specStripMap m)).mesh).dup.length
+  let dup := (Spec.pointData (Spec.sepA t) (applyPointMap f (Spec.specStripMap m)).mesh).dups.length
   pure s!"hyp={showBool hyp} model={r1.getD "raise"} tie={showBool (r1 == r2)} spec={if hyp then specSortStr f else "-"} dup={dup} atol={t.atol}"
 
 def showOutcome : LadderRes → String
@@ -141,4 +141,6 @@ def handleC02 (op : String) : Option (P String) :=
   | "c02hash" => some opHash
   | _ => none
 
-end Fc.Drv
+end Fc.Drv.C02
+
+def Fc.Drv.handleC02 := Fc.Drv.C02.handleC02
